@@ -33,7 +33,8 @@ struct Th { pthread_t tid; sem_t go; int state = 0; /*0 new 1 enabled 2 blocked 
 
 struct Core {
     bool active = false; int n = 0; std::vector<Th *> th; int running = -1;
-    std::vector<int> prefix; size_t pos = 0; Trace tr; std::map<const void *, int> owner; sem_t done; bool record_events = false;
+    std::vector<int> prefix; size_t pos = 0; Trace tr;
+    bool scripted = false; std::vector<int> script; size_t spos = 0; std::set<std::string> relevant; /* directed replay of a model trace: one thread id per model step */ std::map<const void *, int> owner; sem_t done; bool record_events = false;
 };
 inline Core &C() { static Core c; return c; }
 inline thread_local int t_id = -1;
@@ -54,6 +55,15 @@ inline int choose(const char *label, bool me_enabled) {
     for (int i = 0; i < c.n; i++) if (i != me && c.th[i]->state == 1) order.push_back(i);
     if (order.empty()) return -1;
     monitor_check();
+    if (c.scripted) { // a model step = the chosen thread performs its pending relevant event and runs up to its next relevant point
+        bool at_relevant = !me_enabled || me < 0 || c.relevant.count(label);
+        if (!at_relevant) return me;                       // between two model events: keep running
+        if (c.spos >= c.script.size()) { c.tr.diverged = true; return order[0]; }
+        int want = c.script[c.spos++]; bool ok = false; for (int o : order) if (o == want) ok = true;
+        if (!ok) { c.tr.diverged = true; return order[0]; }
+        Point p; p.running = me; p.running_enabled = me_enabled; p.n_enabled = (int)order.size(); p.chosen = want; p.label = label; p.order = order; c.tr.points.push_back(p);
+        return want;
+    }
     if (order.size() == 1) return order[0];
     int ch = 0;
     if (c.pos < c.prefix.size()) { ch = c.prefix[c.pos]; if (ch < 0 || ch >= (int)order.size()) { c.tr.diverged = true; ch = 0; } }
@@ -128,8 +138,8 @@ inline void *trampoline(void *arg) {
 }
 
 // run the bodies under the schedule `prefix`; returns the trace
-inline Trace run(const std::vector<std::function<void()>> &bodies, const std::vector<int> &prefix, bool record_events = false) {
-    Core &c = C(); c.n = (int)bodies.size(); c.prefix = prefix; c.pos = 0; c.tr = Trace(); c.owner.clear(); c.record_events = record_events; sem_init(&c.done, 0, 0);
+inline Trace run(const std::vector<std::function<void()>> &bodies, const std::vector<int> &prefix, bool record_events = false, const std::vector<int> *script = nullptr, const std::set<std::string> *relevant = nullptr) {
+    Core &c = C(); c.n = (int)bodies.size(); c.prefix = prefix; c.pos = 0; c.scripted = script != nullptr; c.spos = 0; if (script) { c.script = *script; c.relevant = *relevant; } c.tr = Trace(); c.owner.clear(); c.record_events = record_events; sem_init(&c.done, 0, 0);
     for (auto t : c.th) delete t; c.th.clear();
     for (int i = 0; i < c.n; i++) { Th *t = new Th; sem_init(&t->go, 0, 0); t->state = 1; t->body = bodies[i]; t->at = "start"; c.th.push_back(t); }
     c.active = true; t_id = -1;
